@@ -79,15 +79,15 @@ def auto_models(j, skip=()):
             used.append('std::forward_list = finite sequence, iterators designate elements, elements never move (harness/flmodel.h)')
             continue
         sqm = None
-        if re.match(r'std::vector<const void \*>::push_back$', q) and len(ps) == 2:
-            sqm = 'sq_append(%s, *%s);' % (ps[0][1], ps[1][1])
+        if re.match(r'std::vector<[^<>]*\*>::push_back$', q) and len(ps) == 2:
+            sqm = 'sq_append(%s, (void*)*%s);' % (ps[0][1], ps[1][1])
         elif re.match(r'std::(vector|deque)<.*>::size$', q) and len(ps) == 1:
             sqm = 'return sq_length(%s);' % ps[0][1]
-        elif re.match(r'std::vector<const void \*>::at$', q) and len(ps) == 2:
-            sqm = 'int sl = sq_find(%s); if (sl < 0 || %s >= sq_size[sl]) { __ipr_throw(IPR_EXC_std__out_of_range); return 0; } return &sq_elem_at(sl, %s);' % (ps[0][1], ps[1][1], ps[1][1])
-        elif re.match(r'std::vector<const void \*>::operator\[\]$', q) and len(ps) == 2:
-            sqm = 'int sl = sq_find(%s); __CPROVER_assert(sl >= 0 && %s < sq_size[sl], "sequence model: operator[] within bounds"); return &sq_elem_at(sl, %s);' % (ps[0][1], ps[1][1], ps[1][1])
-        elif re.match(r'std::vector<const void \*>::resize$', q) and len(ps) == 2:
+        elif re.match(r'std::vector<[^<>]*\*>::at$', q) and len(ps) == 2:
+            sqm = 'int sl = sq_find(%s); if (sl < 0 || %s >= sq_size[sl]) { __ipr_throw(IPR_EXC_std__out_of_range); return 0; } return (%s)&sq_elem_at(sl, %s);' % (ps[0][1], ps[1][1], s['ret'], ps[1][1])
+        elif re.match(r'std::vector<[^<>]*\*>::operator\[\]$', q) and len(ps) == 2:
+            sqm = 'int sl = sq_find(%s); __CPROVER_assert(sl >= 0 && %s < sq_size[sl], "sequence model: operator[] within bounds"); return (%s)&sq_elem_at(sl, %s);' % (ps[0][1], ps[1][1], s['ret'], ps[1][1])
+        elif re.match(r'std::vector<[^<>]*\*>::resize$', q) and len(ps) == 2:
             sqm = 'int sl = sq_slot(%s); __CPROVER_assert(%s <= SEQ_CAP, "sequence model: resize within the harness bound"); for (int k = 0; k < SEQ_CAP; k++) if (k >= sq_size[sl]) sq_elem_at(sl, k) = 0; sq_size[sl] = %s;' % (ps[0][1], ps[1][1], ps[1][1])
         elif re.match(r'std::deque<.*>::(operator\[\]|at)$', q) and len(ps) == 2:
             sqm = 'int sl = sq_find(%s); __CPROVER_assert(sl >= 0 && %s < sq_size[sl], "sequence model: deque element access within bounds"); return (%s)sq_elem_at(sl, %s);' % (ps[0][1], ps[1][1], s['ret'], ps[1][1])
